@@ -207,3 +207,57 @@ def C03_structural(ctx=None):
                   f'return {mk.format(t="iterable")}.filter()' in src and 'if isinstance(iterable, bs4.Tag)' in src and
                   'return [node for node in iterable if not CSSMatch.is_navigable_string(node) and self.match(node)]' in src, detail=[src[-300:]]))
     return out
+
+
+def token_progress(ctx=None):
+    """C06.O3 / C20.O3: the tokenizer loops make progress.  Every token pattern is non-nullable (decided on the regex language
+    with look-arounds dropped: an over-approximation, so 'cannot match the empty string' carries over to the real pattern), the
+    selector_iter loop either advances `index` to the end of a non-empty match or raises, and pretty() advances by a non-empty
+    match or by one character."""
+    import importlib
+    import z3
+    from . import regexc
+    import soupsieve  # noqa
+    cp = importlib.import_module('soupsieve.css_parser')
+    pr = importlib.import_module('soupsieve.pretty')
+    out = []
+
+    def nonnull(oid, pat, what):
+        try:
+            info = regexc.info(pat.pattern, pat.flags, drop_lookaround=True)
+            s = z3.Solver()
+            s.add(z3.InRe(z3.StringVal(''), info.lang))
+            okn = s.check() == z3.unsat
+            detail = None if okn else [f'{what}: pattern {pat.pattern[:60]!r} can match the empty string: the loop would not advance']
+            o_ = ob(oid, f'{what} cannot match the empty string (progress of the token loop)', okn, detail=detail, confirmed=not okn)
+            o_['backend'] = f'z3-{z3.get_version_string()} (emptiness of "" in the over-approximated regex language)'
+            out.append(o_)
+        except regexc.RegexUnsupported as ex:
+            out.append(dict(id=oid, desc=f'{what} non-nullable', result='unknown', backend='regex translation', time=0.0, detail=f'out of reach: {ex}'))
+    for tok in cp.CSSParser.css_tokens:
+        if isinstance(tok, cp.SpecialPseudoPattern):
+            for nm, sub in sorted(tok.patterns.items()):
+                nonnull(f'C06.O3/token/{sub.name}/{nm}', sub.re_pattern, f'token {sub.name} ({nm})')
+            nonnull('C06.O3/token/special-name', tok.re_pseudo_name, 'special pseudo-class name pattern')
+        else:
+            nonnull(f'C06.O3/token/{tok.name}', tok.re_pattern, f'token {tok.name}')
+    # loop shape of selector_iter: after a match `index = m.end(0)`; without a match it raises
+    ptree, ppath = module_tree('soupsieve.css_parser')
+    fn = None
+    for n in ast.walk(ptree):
+        if isinstance(n, ast.FunctionDef) and n.name == 'selector_iter':
+            fn = n
+    wl = next((n for n in ast.walk(fn) if isinstance(n, ast.While)), None) if fn else None
+    src = ast.unparse(wl) if wl else ''
+    shape = wl is not None and ast.unparse(wl.test) == 'index <= end' and 'index = m.end(0)' in src and 'if m is None:' in src and \
+        'raise SelectorSyntaxError(msg, self.pattern, index)' in src and 'm = v.match(pattern, index, self.flags)' in src
+    out.append(ob('C06.O3/selector_iter.loop', 'selector_iter: each iteration sets index to the end of a (non-empty) match at index, raises, or stops at trailing trivia', shape,
+                  detail=[src[:300]]))
+    for nm, rx in pr.TOKENS.items():
+        nonnull(f'C20.O3/pretty-token/{nm}', rx, f'pretty token {nm}')
+    ptree2, _ = module_tree('soupsieve.pretty')
+    fn2 = next((n for n in ast.walk(ptree2) if isinstance(n, ast.FunctionDef) and n.name == 'pretty'), None)
+    src2 = ast.unparse(fn2) if fn2 else ''
+    shape2 = 'while index <= end' in src2 and 'index = m.end(0)' in src2 and 'if m is None:' in src2 and 'index += 1' in src2
+    out.append(ob('C20.O3/pretty.loop', 'pretty(): each iteration consumes a non-empty token or one character (index strictly increases up to len)', shape2, detail=[src2[-400:]]))
+    return out
